@@ -204,6 +204,17 @@ fn seeds() -> Vec<(&'static str, Vec<Op>)> {
     ]
 }
 
+/// Non-initial states with many placeholders in flight (the pending table is a SortedDeque: removing
+/// interior entries leaves tombstones; six or seven pending entries with data in between reach shapes
+/// the depth-bounded search from empty cannot).
+fn pending_seeds() -> Vec<(&'static str, Vec<Op>)> {
+    vec![
+        ("six-pending", vec![a(K::Register(1)), a(K::PushCopy(3)), a(K::Register(1)), a(K::Register(2)), a(K::PushBorrowed(3)), a(K::Register(1)), a(K::Register(1)), a(K::Register(1))]),
+        ("five-pending-two-filled", vec![a(K::Register(1)), a(K::Register(1)), a(K::Register(1)), a(K::PushCopy(3)), a(K::Register(1)), a(K::Register(1)), a(K::Backfill(1)), a(K::Backfill(2))]),
+        ("seven-pending-across-slices", vec![a(K::Register(1)), a(K::Push(100)), a(K::Register(1)), a(K::Register(1)), a(K::Push(100)), a(K::Register(1)), a(K::Register(1)), a(K::Register(2)), a(K::Register(1))]),
+    ]
+}
+
 struct Explorer<'a> {
     ctx: &'a Ctx,
     rep: &'a mut Report,
@@ -432,11 +443,17 @@ fn run(ctx: &Ctx) -> Report {
             for (name, seed) in seeds() {
                 explore(ctx, &mut rep, "C03", &format!("C03 alphabet A after seed {}", name), alphabet_a(), Start::Fresh, seed, t.pick(3, 5));
             }
+            for (name, seed) in pending_seeds() {
+                explore(ctx, &mut rep, "C03", &format!("C03 backpatch alphabet B after seed {}", name), alphabet_b(), Start::Fresh, seed, t.pick(4, 5));
+            }
         }
         "C04" => {
             explore(ctx, &mut rep, "C04", "C04 alphabet B", alphabet_b(), Start::Fresh, vec![], t.pick(7, 8));
             for (name, seed) in seeds() {
                 explore(ctx, &mut rep, "C04", &format!("C04 alphabet B after seed {}", name), alphabet_b(), Start::Fresh, seed, t.pick(4, 6));
+            }
+            for (name, seed) in pending_seeds() {
+                explore(ctx, &mut rep, "C04", &format!("C04 alphabet B after seed {}", name), alphabet_b(), Start::Fresh, seed, t.pick(4, 5));
             }
         }
         "C05" => {
